@@ -276,6 +276,12 @@ under its column (`Lemmas/ColumnsDense.lean`: `OpAction`, `colStates`, `circuitO
 C02 (`schedule_sound`, `c02_trajectory_is_circuit_unitary`), C04 Part D (`embedL_commute`), C14 (`apply_one_site_dense`) and
 C11 (`centre_walk`, `local_expect_dense*`, `rows_to_objects`) this gives the statement the property makes about the NUMBERS.
 
+Theorems: `column_state_ends`, `column_state_ends_raw` (column 0 = ψ₀, last column = U_circuit ψ₀, every circuit),
+`column_state` (column k+1 = U_prefix ψ₀ at a full-width labelled barrier), `column_state_dense`, `column_state_is_trajectory`
+(the dense-operator instance; link to C02), `markers_transparent_values` (final column unchanged without markers; one column
+= the final one when sampling is off), `values_any_order` (rows → objects → `⟨Ψ|O|Ψ⟩`, any listing order, one- and two-site),
+`column_values`, `column_values_final` (entry (object, column) = `re ⟨ψ_k|O_j|ψ_k⟩`).
+
 Hypotheses that remain (each named where it enters):
 * **D27 exclusion** — the labelled barrier whose column is described spans all qubits (`hpre`, `hpost`); for a partial
   labelled barrier the statement is false (`columns_partial_counterexample`).
@@ -337,6 +343,29 @@ theorem column_state (numMid : Nat) (pre post : List Instr) (qs : List Nat)
   · rw [colStates_append, hf]
     rfl
   · rw [colStates_cols, hcols]
+
+/-- **C16.V0r `column_state_ends_raw`** (the same for the circuit as the user wrote it: raw labels, `_run_circuit` level).
+    With the ONE label predicate of `label_count_agree` (`strip().upper()`, used both where the columns are counted and where
+    the barriers are recognised) the last evaluation goes to the last allocated column `numColumns − 1`, the columns in
+    between are `1 … m` for the `m` barriers the predicate accepts — whatever the case of the label or the whitespace around
+    it — and the states are `s₀` first and `U_c · s₀` last. -/
+theorem column_state_ends_raw (raw : List RawInstr) (evs : List Event) (s0 : S)
+    (h : runCircuit .strongSample raw = some evs) :
+    ∃ mid, colStates A sem s0 evs
+        = (0, s0) :: (mid ++ [(numColumns isSampleLabel .strongSample raw - 1,
+            A.app (circuitOp sem (raw.map (classify isSampleLabel))) s0)]) ∧
+      mid.map Prod.fst = List.range' 1 (countMid isSampleLabel raw) ∧
+      (colStates A sem s0 evs).length = numColumns isSampleLabel .strongSample raw := by
+  unfold runCircuit runCircuitWith at h
+  simp only [Mode.sampling, if_true] at h
+  obtain ⟨mid, hm, hc⟩ := column_state_ends A sem hcomm _ _ evs s0 h
+  rw [label_count_agree isSampleLabel raw] at hc
+  refine ⟨mid, ?_, hc, ?_⟩
+  · rw [hm]; simp [numColumns]
+  · have hl : mid.length = countMid isSampleLabel raw := by
+      have := congrArg List.length hc
+      simpa using this
+    rw [hm]; simp [numColumns, hl]
 
 /-- **C16.V3 `markers_transparent_values`** (transparency, as a statement about the recorded STATES and hence about every
     value computed from them).  Remove any set of non-gate instructions from `c` — barriers, labelled or not, of any
@@ -436,6 +465,45 @@ namespace Yaqs.ColumnValues
 
 open Matrix Yaqs.Embed Yaqs.Layers Yaqs.LocalOp Yaqs.Attribution
 
+/-- **C16.V2a `values_any_order`** (C11 composed: from the chain to the user's objects).  For ANY chain `ts` of `n` sites
+    and any list of one-site / adjacent two-site observable objects in any listing order (ids distinct): if the rows that
+    `evaluate_observables` writes are the site-local contractions on a centre-walked copy of `ts` (`Written`) with the centre
+    where `centre_walk` puts it (the entries of `centresFrom`: the object's own first site), then after the stitching of
+    `_run_strong_sim` every object of the user's list holds `re ⟨Ψ| O_o |Ψ⟩`, `Ψ` the dense state of `ts` and `O_o` the
+    object's own operator embedded on its own site(s) — `centre_walk` + `local_expect_dense*` + `rows_to_objects`. -/
+theorem values_any_order {K : Type*} [CommRing K] [StarRing K] {ι : Type*} [Fintype ι] [DecidableEq ι]
+    (n : Nat) (ts : List (Mps.Alg.Site (Fin 2) ι K))
+    (obs : List Obs) (hnd : (obs.map (·.id)).Nodup) (hloc : ∀ o ∈ obs, o.kind = .local1 ∨ o.kind = .local2)
+    (data : Obs → ObsData n K) (hsite : ∀ o ∈ obs, (data o).site = o.site) (re : K → Rat)
+    (rows : List Rat) (hr : rows.length = (sortedObservables obs).length)
+    (hrow : ∀ k' (hk : k' < (sortedObservables obs).length) c,
+      ((sortedObservables obs)[k'].id, c, c) ∈ centresFrom 0 (evaluateObservables (sortedObservables obs)) →
+      ∃ w, Written n ts c (data (sortedObservables obs)[k']) w ∧ rows[k']'(hr ▸ hk) = re w) :
+    ∀ o ∈ obs, stitchAll (sortedObservables obs) 0 [rows] Store.empty o.id 0
+      = some (re (denseExpect (data o).op (Psi n ts))) := by
+  intro o ho
+  have hcw := (centre_walk obs).2.1
+  have hperm := sorted_is_perm obs
+  have key := rows_to_objects obs hnd (fun _ o => re (denseExpect (data o).op (Psi n ts))) [rows]
+    (by intro r hrm; simp only [List.mem_singleton] at hrm; rw [hrm, hr])
+    (by
+      intro j hj k' hk
+      have hj0 : j = 0 := by simpa using hj
+      subst hj0
+      have hmem : (sortedObservables obs)[k'] ∈ obs := hperm.mem_iff.mp (List.getElem_mem hk)
+      have hmv : (sortedObservables obs)[k'].kind.moves = true := by
+        rcases hloc _ hmem with h | h <;> rw [h] <;> rfl
+      have hin : ((sortedObservables obs)[k'].id, (sortedObservables obs)[k'].site, (sortedObservables obs)[k'].site)
+          ∈ centresFrom 0 (evaluateObservables (sortedObservables obs)) := by
+        rw [hcw]
+        exact List.mem_map.mpr ⟨_, List.mem_filter.mpr ⟨List.getElem_mem hk, by simpa using hmv⟩, rfl⟩
+      obtain ⟨w, hw, hrw⟩ := hrow k' hk _ hin
+      have := written_dense n _ _ _ w (hsite _ hmem) hw
+      simp only [List.getElem_cons_zero]
+      rw [hrw, this])
+    o ho
+  exact key.1 0 (by simp)
+
 /-- **C16.V2 `column_values`** (what the NUMBERS in a column are).  Circuit `pre ++ sbarrier qs :: post` on `n` qubits, the
     labelled barrier full-width (D27 exclusion), `k` labelled barriers in front of it; the run starts from the MPS `ts0`.
     Assume every gate application of the prefix is exact: `apply g` acts on the dense state of the chain as the embedded
@@ -481,28 +549,60 @@ theorem column_values {K : Type*} [CommRing K] [StarRing K] {ι : Type*} [Fintyp
     rw [htr.2, hfs]; rfl
   refine ⟨_, before, after, hrun, rfl, hcols, hΨ, ?_⟩
   intro rows hr hrow o ho
-  have hcw := (centre_walk obs).2.1
-  have hperm := sorted_is_perm obs
-  have key := rows_to_objects obs hnd
-    (fun _ o => re (denseExpect (data o).op (act (circuitOp (denseSem n g1 g2) pre) (Psi n ts0)))) [rows]
-    (by intro r hrm; simp only [List.mem_singleton] at hrm; rw [hrm, hr])
-    (by
-      intro j hj k' hk
-      have hj0 : j = 0 := by simpa using hj
-      subst hj0
-      have hmem : (sortedObservables obs)[k'] ∈ obs := hperm.mem_iff.mp (List.getElem_mem hk)
-      have hmv : (sortedObservables obs)[k'].kind.moves = true := by
-        rcases hloc _ hmem with h | h <;> rw [h] <;> rfl
-      have hin : ((sortedObservables obs)[k'].id, (sortedObservables obs)[k'].site, (sortedObservables obs)[k'].site)
-          ∈ centresFrom 0 (evaluateObservables (sortedObservables obs)) := by
-        rw [hcw]
-        exact List.mem_map.mpr ⟨_, List.mem_filter.mpr ⟨List.getElem_mem hk, by simpa using hmv⟩, rfl⟩
-      obtain ⟨w, hw, hrw⟩ := hrow k' hk _ hin
-      have := written_dense n _ _ _ w (hsite _ hmem) hw
-      simp only [List.getElem_cons_zero]
-      rw [hrw, this, hΨ])
-    o ho
-  exact key.1 0 (by simp)
+  rw [← hΨ]
+  exact values_any_order n (mpsAfter apply ts0 before) obs hnd hloc data hsite re rows hr hrow o ho
+
+/-- **C16.V2f `column_values_final`** (the numbers of the LAST column, and of the single column when layer sampling is off;
+    no width hypothesis).  For ANY circuit `c` — barriers of any width, measurements anywhere — with exact gate applications,
+    in the sampling run and in the run with `sample_layers = False` alike: the chain on which the final
+    `evaluate_observables` works represents `U_c ψ₀`, and every object of any list of one-site / adjacent two-site
+    observables receives `re ⟨U_c ψ₀| O_o |U_c ψ₀⟩`.  In particular the numbers do not depend on the markers of `c`
+    (`circuitOp_filter`: `U` of the circuit with markers removed is `U_c`) nor on `sample_layers`. -/
+theorem column_values_final {K : Type*} [CommRing K] [StarRing K] {ι : Type*} [Fintype ι] [DecidableEq ι]
+    (n numMid : Nat) (g1 : Nat → Matrix (Fin 2) (Fin 2) K) (g2 : Nat → Matrix (Fin 2 × Fin 2) (Fin 2 × Fin 2) K)
+    (c : List Instr) (mode : Mode) (hmode : mode ≠ .weak)
+    (apply : Instr → List (Mps.Alg.Site (Fin 2) ι K) → List (Mps.Alg.Site (Fin 2) ι K))
+    (hrep : ∀ g ∈ c, g.isGate = true → Represents n (apply g) (denseSem n g1 g2 g))
+    (ts0 : List (Mps.Alg.Site (Fin 2) ι K)) (hlen0 : ts0.length = n)
+    (obs : List Obs) (hnd : (obs.map (·.id)).Nodup) (hloc : ∀ o ∈ obs, o.kind = .local1 ∨ o.kind = .local2)
+    (data : Obs → ObsData n K) (hsite : ∀ o ∈ obs, (data o).site = o.site) (re : K → Rat) :
+    ∃ evs body col,
+      digitalTjm mode numMid c = some evs ∧ evs = body ++ [.eval col] ∧
+      Psi n (mpsAfter apply ts0 body) = act (circuitOp (denseSem n g1 g2) c) (Psi n ts0) ∧
+      ∀ (rows : List Rat) (hr : rows.length = (sortedObservables obs).length),
+        (∀ k' (hk : k' < (sortedObservables obs).length) ctr,
+          ((sortedObservables obs)[k'].id, ctr, ctr) ∈ centresFrom 0 (evaluateObservables (sortedObservables obs)) →
+          ∃ w, Written n (mpsAfter apply ts0 body) ctr (data (sortedObservables obs)[k']) w ∧
+            rows[k']'(hr ▸ hk) = re w) →
+        ∀ o ∈ obs, stitchAll (sortedObservables obs) 0 [rows] Store.empty o.id 0
+          = some (re (denseExpect (data o).op (act (circuitOp (denseSem n g1 g2) c) (Psi n ts0)))) := by
+  obtain ⟨evs, hrun⟩ := Option.isSome_iff_exists.mp (loop_terminates mode numMid c)
+  have happs := events_are_schedule mode numMid c evs hrun
+  -- the run ends with the final evaluation
+  have hshape : ∃ body col, evs = body ++ [.eval col] := by
+    have h := hrun
+    unfold digitalTjm digitalTjmWith at h
+    rw [visit_eq c] at h
+    cases mode with
+    | strongSample =>
+      simp only [Option.some.injEq] at h
+      exact ⟨.eval 0 :: emit true 0 (visit c), numMid + 1, by rw [← h]; simp [Mode.sampling]⟩
+    | strongPlain =>
+      simp only [Option.some.injEq] at h
+      exact ⟨emit false 0 (visit c), 0, by rw [← h]; simp [Mode.sampling]⟩
+    | weak => exact absurd rfl hmode
+  obtain ⟨body, col, rfl⟩ := hshape
+  have hb : body.filter Event.isApp = (schedule c).filterMap Event.ofInstr := by
+    simpa [List.filter_append, Event.isApp] using happs
+  have htr := mps_tracks n apply (denseSem n g1 g2) c hrep body (apps_from_schedule c body hb) ts0 hlen0
+  have hfs := finalState_of_schedule (actAction (ι := ι) n) (denseSem n g1 g2) (denseSem_comm n g1 g2) c body hb
+    (Psi n ts0)
+  have hΨ : Psi n (mpsAfter apply ts0 body) = act (circuitOp (denseSem n g1 g2) c) (Psi n ts0) := by
+    rw [htr.2, hfs]; rfl
+  refine ⟨_, body, col, hrun, rfl, hΨ, ?_⟩
+  intro rows hr hrow o ho
+  rw [← hΨ]
+  exact values_any_order n (mpsAfter apply ts0 body) obs hnd hloc data hsite re rows hr hrow o ho
 
 end Yaqs.ColumnValues
 
@@ -562,5 +662,22 @@ example :
     · decide
   · exact (written_dense 2 [L0, C0] 1 (.one (1 : Fin 2) (gz 0)) 12 rfl
       ⟨[L0], [], C0, rfl, rfl, rfl, by decide, by decide, by decide⟩).symm
+
+
+/-- the two-site branch of `Written` / `written_dense`: centre on site 0, `A' = X·A`, `B' = X·B`;
+    `⟨ψ| X ⊗ X |ψ⟩ = (1·2 + 2·1)(2·3 + 3·2) = 48` -/
+example :
+    Written 2 [A0, C0] 0 (.two (0 : Fin 2) (1 : Fin 2) rfl xx) 48 ∧
+    denseExpect (ObsData.op (.two (0 : Fin 2) (1 : Fin 2) rfl xx)) (Psi 2 [A0, C0]) = 48 := by
+  have hw : Written 2 [A0, C0] 0 (.two (0 : Fin 2) (1 : Fin 2) rfl xx) 48 :=
+    ⟨[], [], A0, C0, flipS A0, flipS C0, rfl, rfl, rfl, by decide, by decide, by decide, by decide⟩
+  exact ⟨hw, (written_dense 2 [A0, C0] 0 _ 48 rfl hw).symm⟩
+
+/-- non-vacuity of `column_state_ends_raw`: a mixed-case, whitespace-padded label is a sampling barrier, a near miss is not -/
+example :
+    let raw : List RawInstr := [.gate1 1 0, .barrier [1, 0] (some (" sAmple_Observables\n".toList.map Char.toNat)),
+      .barrier [0, 1] (some ("SAMPLE OBSERVABLES".toList.map Char.toNat)), .gate2 1 0 1]
+    (runCircuit .strongSample raw).map evalCols = some [0, 1, 2] ∧ numColumns isSampleLabel .strongSample raw = 3 := by
+  decide
 
 end Yaqs.ColumnValues.Example
